@@ -18,12 +18,15 @@ func genConvoy(t *rapid.T) *ConvoyCase {
 			o.N = rapid.SampledFrom([]int{0, 0, 1, 1, 1, 2, 3}).Draw(t, "n")
 		} else {
 			o.A = rapid.SampledFrom([]int{0, 0, 0, 1, 2}).Draw(t, "a")
+			// a request for the address whose last release keeps the lock busy
+			o.Z = rapid.SampledFrom(oneIn5).Draw(t, "z")
 		}
 		return o
 	})
 	cc.Ops = rapid.SliceOfN(op, 1, 6).Draw(t, "ops")
 	cc.NoLever = rapid.SampledFrom(oneIn8).Draw(t, "nolever")
 	cc.Names = genNames(t, convoyAddrs, "z")
+	cc.ZReady = rapid.Bool().Draw(t, "zready")
 	return cc
 }
 
@@ -98,6 +101,15 @@ func TestC16Convoy(t *testing.T) {
 		}
 		if acqRace {
 			lb = append(lb, "request-races-the-last-release")
+		}
+		if st.zReady {
+			lb = append(lb, "lever-connection-READY-at-its-last-release")
+		}
+		if st.zAcqs > 0 && st.lever {
+			lb = append(lb, "request-for-the-address-whose-last-release-is-inside-close")
+			if st.zReady {
+				lb = append(lb, "request-for-the-address-whose-READY-connection-is-inside-close")
+			}
 		}
 		lb = append(lb, fmt.Sprintf("ops-%d", len(cc.Ops)))
 		tab, _ := addrTable(cc.Names, convoyAddrs)
